@@ -6,6 +6,7 @@
 #ifndef CDSLIB_ALGO_SPLIT_BITSTRING_H
 #define CDSLIB_ALGO_SPLIT_BITSTRING_H
 
+#include <type_traits>
 #include <cds/algo/base.h>
 
 namespace cds { namespace algo {
@@ -357,7 +358,7 @@ namespace cds { namespace algo {
             assert( !eos());
             assert( is_correct( count ));
 
-            int_type result = ( number_ >> shift_ ) & (( 1 << count ) - 1 );
+            int_type result = ( number_ >> shift_ ) & static_cast<int_type>(( static_cast<typename std::make_unsigned<int_type>::type>( 1 ) << count ) - 1 );
             shift_ += count;
 
             return result;
